@@ -488,7 +488,7 @@ def run(ctx, spec):
             for pp in paths:
                 snap = fsmon.dataset_snapshot(pp)
                 if snap != gold:
-                    what = [k for k in ("listing", "parts", "spatial", "metadata_row_groups") if snap[k] != gold[k]]
+                    what = [k for k in ("listing", "parts", "spatial", "metadata_row_groups", "metadata_detail") if snap[k] != gold[k]]
                     viol("schedule-dependence", f"schedule:pack_to_parquet:dataset-differs-from-serial:"
                          f"{'two-calls' if two else 'one-call'}", {"op": "pack_partitions_to_parquet", "config": cfg,
                                                                   "differs": what})
